@@ -173,9 +173,16 @@ LoadFams == <<"lin", "sat", "step", "near_sat">>
 \*   "id" increasing; "swap" neighbours exchanged in the upper half (with a steeply saturating loading the Cheng-Yang
 \*   term can keep the PRESSURES increasing although the solutions are not); "rev" decreasing.
 \* Every width must solve the equation for ITS pressure whatever the order.
-Perms == <<"id", "swap", "id", "rev">>
+\*   "over" increasing, but the middle point asks for a pore far beyond the range (1.3 x the largest size the methods
+\*   determine, 10 nm for slits, 5 nm radius otherwise): the analysis may stop there, but whatever it reports - before or
+\*   after - must still belong to the pressure / loading it is reported with.
+Perms == <<"id", "swap", "id", "rev", "over">>
+CutoffL(geo) == DDiv(DInt(10), DInt(GeoFactor(geo)))
+OverL(geo) == DMul(DL(13, -1), CutoffL(geo))
+OverIdx(perm, N) == IF perm = "over" THEN N \div 2 ELSE 0
 PermIdx(perm, N, j) ==
    CASE perm = "id" -> j
+     [] perm = "over" -> j
      [] perm = "rev" -> N + 1 - j
      [] perm = "swap" -> LET hf == N \div 2 IN
                          IF j <= hf THEN j ELSE IF (j - hf) % 2 = 1 THEN (IF j + 1 <= N THEN j + 1 ELSE j) ELSE j - 1
@@ -202,7 +209,7 @@ Scenarios ==
                     a == (i \div (nM * nG * nH)) % nA  t == (i \div (nM * nG * nH * nA)) % nT
                 IN [id |-> i, model |-> Models[m + 1], geo |-> Geos[g + 1], h |-> AdsorbentIds[h + 1], a |-> AdsorbateIds[a + 1],
                     T |-> Temps[t + 1], fam |-> LoadFams[((m + g + h + a + t) % 4) + 1], npts |-> NPts[((g + h + 2 * a + t) % 3) + 1],
-                    perm |-> Perms[((m + 3 * g + h + 2 * a + t) % 4) + 1]]
+                    perm |-> Perms[((m + 3 * g + h + 2 * a + t) % 5) + 1]]
    IN [i \in 1..total |-> Mk(i - 1)]
 
 \* Histories through psd_microporous(adsorbate_model=None): the adsorbate parameters (incl. the liquid density at the
@@ -300,7 +307,8 @@ Judge(q) ==
        pub == Published(q.family, q.geo)
        badPub == IF pub = "none" THEN {} ELSE
                  {j \in 1..k : ~\E v \in PublishedPhi(pub, q.L[j], q.a, q.h, q.T) : DClose(q.f0[j], v, DTol(4))}
-       short == Len(q.chosen) > 0 /\ k < N
+       \* fewer widths than pressures is accepted only when the analysis stopped at a pore beyond the 3 nm range
+       short == Len(q.chosen) > 0 /\ k < N /\ ~(k >= 1 /\ DLt(WMax, W[k]))
    IN [shape |-> shapeOk,
        eqcls |-> cls,
        eq |-> badEq,
